@@ -206,6 +206,8 @@ def families(tier):
             ('closed-triangle-concrete', M, 'fam_polyline', {'npts': 3, 'closed': True, 'concrete': [0j, 4 + 0j, 1 + 3j]}),
             ('closed-smooth-closing-concrete', M, 'fam_polyline', {'npts': 4, 'closed': True, 'smooth_closing': True,
                                                                    'concrete': [0j, 4 + 0j, 2 + 3j, -2 + 0j]})]
+    # the elbow construction reads unit_tangent at segment ends (degenerate ends included): shared with C15
+    fams.append(('tangent-at-degenerate-end', 'vf.props.c15', 'fam_singular', {'case': 'cubic.t0.P0=P1=P2'}))
     if tier == 'thorough':
         fams.append(('closed-3pts', M, 'fam_polyline', {'npts': 3, 'closed': True}))
         fams.append(('closed-4pts-smooth-closing', M, 'fam_polyline', {'npts': 4, 'closed': True, 'smooth_closing': True}))
